@@ -44,11 +44,11 @@ caller() { # out pfx extra-flags
 par caller $BUILD/caller.o caller_ ""
 par caller $BUILD/callernb.o callernb_ "-fno-builtin"
 COBJS="$BUILD/caller.o $BUILD/callernb.o"
-par g++ -std=c++17 -O1 -g -fsanitize=thread -fno-omit-frame-pointer -I$MC -I$H -c $H/c08_reentrancy.cpp -o $BUILD/h_tsan.o
-par g++ -std=c++17 -O2 -g -I$MC -c $MC/sched/sched.cpp -o $BUILD/sched.o
-CXX="g++ -std=c++17 -O2 -g -fno-builtin -I$MC -I$H"
+par g++ -std=c++20 -O1 -g -fsanitize=thread -fno-omit-frame-pointer -I$MC -I$H -c $H/c08_reentrancy.cpp -o $BUILD/h_tsan.o
+par g++ -std=c++20 -O2 -g -I$MC -c $MC/sched/sched.cpp -o $BUILD/sched.o
+CXX="g++ -std=c++20 -O2 -g -fno-builtin -I$MC -I$H"
 for t in c08_common c08_str c08_mem c08_tok; do par $CXX -c $H/$t.cpp -o $BUILD/$t.o; done
-par g++ -std=c++17 -O2 -c -I$MC $MC/mc.cpp -o $BUILD/mc.o
+par g++ -std=c++20 -O2 -c -I$MC $MC/mc.cpp -o $BUILD/mc.o
 parwait
 igc_resolve $OBJS $COBJS
 igc_resolve $TOBJS
